@@ -176,6 +176,10 @@ func genTriple(rng *vkit.Rng) triple {
 		t := []float64{-1e-15, -1e-9, -1e-3, -0.3, 1 + 1e-15, 1 + 1e-9, 1.001, 1.3}[rng.Intn(8)]
 		return triple{norm(comb(a.Vector, 1-t, b.Vector, t)), a, b, lc + " x beyond endpoint"}
 	case 7:
+		if rng.Intn(3) == 0 {
+			// the antipode of a degenerate edge: |x-a|^2 can round above 4
+			return triple{s2.Point{Vector: r3.Vector{X: -a.X, Y: -a.Y, Z: -a.Z}}, a, a, "edge:degenerate x antipodal to it"}
+		}
 		e := []s2.Point{a, b, mid}[rng.Intn(3)]
 		return triple{s2.Point{Vector: r3.Vector{X: -e.X, Y: -e.Y, Z: -e.Z}}, a, b, lc + " x antipodal to endpoint/midpoint"}
 	case 8:
@@ -223,6 +227,8 @@ func pb(x, y, z uint64) s2.Point {
 
 // committed regression inputs (always run first): the two findings on the unchanged tree
 var regression = []triple{
+	{norm(r3.Vector{X: -0.985733256043227, Y: 0.1561815928178867, Z: -0.06274757362070676}), s2.Point{Vector: r3.Vector{X: 0.985733256043227, Y: -0.1561815928178867, Z: 0.06274757362070676}}, s2.Point{Vector: r3.Vector{X: 0.985733256043227, Y: -0.1561815928178867, Z: 0.06274757362070676}}, "regression: x antipodal to a degenerate edge (fixed 509773a)"},
+	{s2.Point{Vector: r3.Vector{X: -0.985733256043227, Y: 0.1561815928178867, Z: -0.06274757362070676}}, s2.Point{Vector: r3.Vector{X: 0.985733256043227, Y: -0.1561815928178867, Z: 0.06274757362070676}}, s2.Point{Vector: r3.Vector{X: 0.985733256043227, Y: -0.1561815928178867, Z: 0.06274757362070676}}, "regression: x antipodal to a degenerate edge (fixed 509773a)"},
 	{pb(0xbfef78ef83d19825, 0xbfc67e661bcf7a4a, 0xbfa5d942a060694d), pb(0x3fef645c9043b80e, 0x3fc564635b28e383, 0xbfb93866b4f9d200), pb(0xbfef78ef83d19827, 0xbfc67e661bcf7a4a, 0xbfa5d942a060694d), "regression: x 2 ulp off endpoint b (threshold vs value)"},
 	{pb(0x3fdd1e16bee9306a, 0xbfeb9f2a84744f28, 0x3fcc05f7f4918955), pb(0xbfd6407cb4e499ff, 0x3fabba6609a69c30, 0x3fedf41617093b72), pb(0xbf8f490a665602fe, 0xbfd0375ba99a6ee1, 0xbfeef3aef9f9041c), "regression: x at the pole of the edge (Project)"},
 }
@@ -362,6 +368,17 @@ func checkTriple(c *vkit.Collector, rng *vkit.Rng, t triple, withT bool) {
 		}
 	}
 
+	// every returned ChordAngle is valid: 0 <= d <= 4 (or a special value that was passed in)
+	validCA := func(v s1.ChordAngle) bool { f := float64(v); return f >= 0 && f <= 4 }
+	if !validCA(d) || (oki && !validCA(di)) {
+		c.Violate("updateMinDistance.endpointUnclamped", fmt.Sprintf("updateMinDistance returned the invalid ChordAngle %v (interior %v)", g, float64(di)), R("dist2", g))
+	}
+	if a := float64(dfs); !(a >= 0 && a <= math.Pi) {
+		c.Violate("DistanceFromSegment.range", fmt.Sprintf("DistanceFromSegment = %v outside [0, pi]", a), R("dist2", g))
+	}
+	if md, mok := s2.UpdateMaxDistance(x, a, b, s1.NegativeChordAngle); mok && !validCA(md) {
+		c.Violate("UpdateMaxDistance.invalid", fmt.Sprintf("UpdateMaxDistance returned the invalid ChordAngle %v", float64(md)), R())
+	}
 	// ---------------- [S] accuracy against the oracle ----------------
 	tc2, tint, okd := trueSegDist(x.Vector, a.Vector, b.Vector)
 	if !okd || math.IsNaN(g) {
